@@ -144,6 +144,18 @@ func VerifH08FieldMeta() {
 		err = f.AddRemoteAvailableShards(shards)
 		verifAssert(err == nil, "available shards saved")
 	}
+	// a shard may be dropped again (after a resize moved it away)
+	if ns > 0 && verifChoice("remove", 2) == 1 {
+		k := verifChoice("removeidx", ns)
+		err = f.RemoveAvailableShard(want[k])
+		verifAssert(err == nil, "available shard removed")
+		gone := want[k]
+		for i := range want {
+			if want[i] == gone {
+				want[i] = 1 << 40 // never probed
+			}
+		}
+	}
 	before := f.Options()
 	idx2 := verifNewIndex(dir + "/i")
 	f2, err := idx2.newField(idx2.fieldPath("f"), "f")
